@@ -1,19 +1,245 @@
-//! C06 (stub, to be filled in)
+//! C06 - a handler sees exactly its own unit's parameters; wrong arity is an error.
+//! World: handlers are simulator actors whose pull pattern (required / optional, how many) is
+//! scheduled per unit; every datum of a message is unique so leakage across `;` is detectable.
+
+use crate::exec::{SendObs, World};
+use crate::gen::*;
+use crate::model::*;
+use crate::msg::*;
+use crate::props::structural::*;
 use crate::props::*;
+use crate::rng::{mix, Rng};
 use crate::runner::{Finding, Prop, Tier};
 use crate::stats::Stats;
+use crate::tree::gen_tree;
 use crate::types::*;
 
 pub struct C06;
 
 impl Prop for C06 {
-    fn id(&self) -> &'static str { "C06" }
-    fn level(&self) -> &'static str { "exploration" }
-    fn rule(&self) -> &'static str { "" }
-    fn assumptions(&self) -> Vec<String> { vec![] }
-    fn runs(&self, _tier: Tier) -> u64 { 0 }
-    fn gen(&self, seed: u64, run: u64, _tier: Tier) -> Trace {
-        base_trace("C06", seed, run, "", Config { queue: QueueCfg::Vec, controllers: 1, tree: TreeDesc::default() })
+    fn id(&self) -> &'static str {
+        "C06"
     }
-    fn check(&self, _trace: &Trace, _stats: &mut Stats) -> Vec<Finding> { vec![] }
+    fn level(&self) -> &'static str {
+        "exploration"
+    }
+    fn rule(&self) -> &'static str {
+        "one run = one random tree and 1-6 messages of 1-4 units; every unit carries n in 0..6 unique data elements of all seven types (indefinite block only last) and its handler pulls m in 0..n+2 parameters with a seeded mix of required/optional pulls, at first/middle/last unit, before ';', white space + ';', NL, white space or end of input, events and queries; pulls, -108/-109 results and the handler log are compared with the parameter model. distinct_nontrivial = distinct (n supplied, m pulled, required/optional pattern of the surplus pulls, unit position class, ending class, query?) tuples"
+    }
+    fn assumptions(&self) -> Vec<String> {
+        vec![
+            "handlers pull raw tokens (next_token / next_optional_token) and propagate pull errors, as the crate's own handlers do".into(),
+            "elements are well formed (ill-formed ones belong to C04)".into(),
+        ]
+    }
+    fn runs(&self, tier: Tier) -> u64 {
+        match tier {
+            Tier::Quick => 40_000,
+            Tier::Thorough => 1_500_000,
+            Tier::Tiny => 40,
+        }
+    }
+    fn required_probes(&self) -> Vec<String> {
+        let v: Vec<&str> = vec![
+            "overpull_required_at_unit_separator",
+            "overpull_optional_at_unit_separator",
+            "optional_pull_at_end_of_input",
+            "underconsume_in_last_unit",
+            "underconsume_in_first_unit_of_many",
+            "zero_params_with_trailing_space",
+            "zero_params_no_space",
+            "exact_consumption_6",
+            "indefinite_block_last",
+        ];
+        v.into_iter().map(String::from).collect()
+    }
+
+    fn gen(&self, seed: u64, run: u64, _tier: Tier) -> Trace {
+        let mut rng = Rng::new(mix(seed, "C06", run));
+        let mut trng = Rng::new(mix(seed, "C06-tree", run / 64));
+        let tree = gen_tree(&mut trng, false, 3, 3, 1);
+        let cfg = Config {
+            queue: QueueCfg::Vec,
+            controllers: 1,
+            tree,
+        };
+        let mut t = base_trace("C06", seed, run, "arity", cfg.clone());
+        let tc = TreeCtx::new(&cfg.tree);
+        if tc.sim_leaves.is_empty() {
+            return t;
+        }
+        let nmsg = rng.urange(1, 6);
+        let mut uniq = 0u32;
+        for _ in 0..nmsg {
+            let k = *rng.pick(&[1usize, 1, 2, 3, 4]);
+            let mut units = Vec::new();
+            let mut level: Vec<usize> = Vec::new();
+            let end = *rng.pick(&["", "", "\n", " ", " \n", ";", "\r\n"]);
+            for i in 0..k {
+                let leaf = pick_sim_leaf(&mut rng, &tc).unwrap().clone();
+                let last = i + 1 == k;
+                let o = UnitOpts {
+                    max_params: 6,
+                    allow_indef_last: last && end.is_empty(),
+                    query_pct: 40,
+                    max_data: 2,
+                    fancy_ws: true,
+                };
+                let mut u = gen_app_unit(&mut rng, &tc, &leaf, &level, i == 0, &mut uniq, &o);
+                let n = u.params.len();
+                // scheduled pull pattern: m in 0..n+2
+                let m = match rng.below(5) {
+                    0 => n,
+                    1 => rng.usize_below(n + 1),
+                    2 => n + 1,
+                    3 => n + 2,
+                    _ => rng.usize_below(n + 3),
+                };
+                u.plan.pulls = (0..m)
+                    .map(|_| Pull {
+                        req: rng.chance(1, 2),
+                        ty: PullTy::Tok,
+                    })
+                    .collect();
+                if i > 0 && rng.chance(1, 4) {
+                    u.lead = gen_ws(&mut rng, false);
+                }
+                if let Some(l) = level_after(&tc, &level, i == 0, u.colon, &u.path) {
+                    level = l;
+                }
+                units.push(u);
+            }
+            t.steps.push(Step::Send(SendStep {
+                ctl: 0,
+                fmt: FmtCfg::Vec,
+                msg: Msg { units, end: B::from(end) },
+                corrupt: vec![],
+            }));
+        }
+        t
+    }
+
+    fn check(&self, trace: &Trace, stats: &mut Stats) -> Vec<Finding> {
+        struct H;
+        impl StepHandler for H {
+            fn on_send(&mut self, world: &mut World, before: &ModelState, i: usize, s: &SendStep, o: &SendObs, stats: &mut Stats, out: &mut Vec<Finding>) {
+                let pred = predict(&world.root, before, s, Reading::Condition);
+                if !pred.structural {
+                    return;
+                }
+                let k = s.msg.units.len();
+                for (ui, u) in s.msg.units.iter().enumerate() {
+                    if pred.fail_unit.map(|f| ui > f).unwrap_or(false) {
+                        break;
+                    }
+                    let n = u.params.len();
+                    let m = u.plan.pulls.len();
+                    let last = ui + 1 == k;
+                    let pos = if k == 1 {
+                        0
+                    } else if ui == 0 {
+                        1
+                    } else if last {
+                        3
+                    } else {
+                        2
+                    };
+                    let ending: u8 = if !last {
+                        if u.tail.is_empty() && !(n == 0 && !u.hsep.is_empty()) {
+                            0
+                        } else {
+                            1
+                        }
+                    } else {
+                        match s.msg.end.as_slice() {
+                            b"" => 2,
+                            b"\n" | b"\r\n" => 3,
+                            b" " => 4,
+                            b";" => 6,
+                            _ => 5,
+                        }
+                    };
+                    let surplus: Vec<u8> = u.plan.pulls.iter().skip(n).map(|p| p.req as u8).collect();
+                    let mut key = vec![n as u8, m as u8, pos, ending, u.query as u8];
+                    key.extend(surplus.iter());
+                    stats.state(&key);
+                    if m > n {
+                        stats.fault("F2_overconsume");
+                        let first_req = u.plan.pulls[n].req;
+                        if !last {
+                            stats.probe(if first_req {
+                                "overpull_required_at_unit_separator"
+                            } else {
+                                "overpull_optional_at_unit_separator"
+                            });
+                        } else if s.msg.end.is_empty() && !first_req {
+                            stats.probe("optional_pull_at_end_of_input");
+                        }
+                    }
+                    if m < n {
+                        stats.fault("F2_underconsume");
+                        if last {
+                            stats.probe("underconsume_in_last_unit");
+                        }
+                        if ui == 0 && k > 1 {
+                            stats.probe("underconsume_in_first_unit_of_many");
+                        }
+                    }
+                    if n == 0 {
+                        stats.probe(if u.hsep.is_empty() {
+                            "zero_params_no_space"
+                        } else {
+                            "zero_params_with_trailing_space"
+                        });
+                    }
+                    if n == 6 && m == 6 {
+                        stats.probe("exact_consumption_6");
+                    }
+                    if matches!(u.params.last(), Some(Elem::BlkIndef { .. })) {
+                        stats.probe("indefinite_block_last");
+                    }
+                }
+                if let Some(df) = cmp_pulls(&pred, o, &s.msg) {
+                    out.push(Finding::new("C06.parameters", df.sig, i, format!("message {}: {}", describe_msg(s), df.detail)));
+                    return;
+                }
+                if let Some(df) = cmp_dispatch(&pred, o) {
+                    // only "a later unit's handler ran although an earlier unit had wrong arity"
+                    // is C06's business
+                    if df.sig == "handler_ran_after_failing_unit" || df.sig == "extra_handler_invocation" {
+                        out.push(Finding::new(
+                            "C06.next_unit_started",
+                            "handler_of_following_unit_ran_after_arity_error",
+                            i,
+                            format!("message {}: {}", describe_msg(s), df.detail),
+                        ));
+                        return;
+                    }
+                }
+                if let Some(df) = cmp_result(&pred, o) {
+                    let arity = matches!(pred.result, Err(ExpErr::Code(-108)) | Err(ExpErr::Code(-109)));
+                    let got_arity = matches!(&o.result, Err(e) if e.code == -108 || e.code == -109);
+                    if arity || got_arity {
+                        out.push(Finding::new("C06.arity_result", df.sig, i, format!("message {}: {}", describe_msg(s), df.detail)));
+                    } else {
+                        stats.bump("result_mismatch_outside_c06");
+                    }
+                }
+            }
+        }
+        let f = drive(trace, stats, &mut H);
+        if trace.run < 3 && stats.samples.is_empty() {
+            let msgs: Vec<serde_json::Value> = trace
+                .steps
+                .iter()
+                .take(4)
+                .filter_map(|s| match s {
+                    Step::Send(x) => Some(serde_json::json!({"msg": describe_msg(x), "pulls": x.msg.units.iter().map(|u| u.plan.pulls.iter().map(|p| if p.req {"req"} else {"opt"}).collect::<Vec<_>>()).collect::<Vec<_>>()})),
+                    _ => None,
+                })
+                .collect();
+            stats.samples.push(serde_json::to_string(&msgs).unwrap());
+        }
+        f
+    }
 }
